@@ -19,6 +19,19 @@ CLAIMED = {
             "the receive / update_settings / initial_values routes and the window-overflow rule "
             "are decided the same way per known id.  Bounded only by 'one or two settings per "
             "frame'.", "7/C12"),
+    'C03': ("symbolic one-step induction over the real send_data / end_stream / WINDOW_UPDATE / "
+            "SETTINGS code from an arbitrary integer pre-state (CrossHair/z3), plus an API-only "
+            "multi-step twin",
+            "Windows, MAX_FRAME_SIZE, payload length, padding, increments and INITIAL_WINDOW_SIZE "
+            "values are solver variables; each step's path set is exhausted and compared with a "
+            "ghost 'window the peer granted'; induction on that invariant covers histories of any "
+            "length over 2(+1) streams.", "7/C03"),
+    'C04': ("symbolic one-step induction over the real inbound flow-control code "
+            "(_receive_data_frame, WindowManager, increment/acknowledge, settings ACK) from an "
+            "arbitrary window-manager pre-state (CrossHair/z3)",
+            "Every integer of both window managers, DATA length/padding, increment and "
+            "acknowledged sizes and old/new INITIAL_WINDOW_SIZE are solver variables; the ghost "
+            "'advertised window' is computed from the frames actually emitted.", "7/C04"),
 }
 
 NOT_YET = {}
